@@ -97,6 +97,15 @@ func New(options ...Option) (*Compiler, error) {
 			name:    "__main__",
 			symbols: NewSymbolTable(),
 		}
+	} else {
+		// Continue the numbering of the functions that an earlier compiler
+		// compiled into this code: function IDs are unique within a code.
+		for _, code := range c.main.Flatten() {
+			var n int
+			if _, err := fmt.Sscanf(code.functionID, "%d", &n); err == nil && n > c.funcIndex {
+				c.funcIndex = n
+			}
+		}
 	}
 	// Insert any supplied names for globals into the symbol table
 	sort.Strings(c.globalNames)
